@@ -66,10 +66,11 @@ theorem foldl_addDep_bw {R : Nat} (t : Nat) (m : Bool) : ∀ (fs : List Nat) (w 
 
 theorem rsFinish_bw {R : Nat} (cx : Ctx) (hcx : cx.runid = R) (t : Nat) (sc : Script) (w : World) (h : BW R w) :
     BW R (rsFinish cx t sc w).2.2 := by
-  unfold rsFinish
+  rw [rsFinish_world]
   split
   · exact h
-  · dsimp only
+  · unfold rsStampW
+    dsimp only
     split
     · exact h
     · rw [hcx]
@@ -178,8 +179,8 @@ theorem startSelf_bw {R : Nat} {E : Engine} (hE : EngBW R E) (d : Defects) (cx :
 theorem oobRun_bw {R : Nat} {E : Engine} (hE : EngBW R E) (d : Defects) (cx : Ctx) (hcx : cx.runid = R) (t : Nat)
     (ts : List Nat) (w : World) (h : BW R w) : BW R (oobRun E d cx t ts w).2 := by
   unfold oobRun
-  have h1 := hE (oobCx1 d cx) (oobOrder w ts) w hcx h
-  generalize E.ifchangeCmd (oobCx1 d cx) (oobOrder w ts) w = r at h1
+  have h1 := hE (oobCx1 d cx t) (oobOrder w ts) w hcx h
+  generalize E.ifchangeCmd (oobCx1 d cx t) (oobOrder w ts) w = r at h1
   obtain ⟨rv, w1⟩ := r
   split
   · rename_i heq; cases heq
